@@ -101,10 +101,14 @@ def run_elf(ctx, quick):
     return run_fmt(ctx, quick, "elf")
 
 
-def run_fmt(ctx, quick, fmt):
+def run_fmt(ctx, quick, fmt, only=None):
     F = FORMATS[fmt]
     c14.quiet()
     names = F["quick"] if quick else F["all"]
+    if only is not None:
+        names = tuple(n for n in F["all"] if n in only)
+        if not names:
+            return
     lines, loaders = [], {}
     for t, rel in enumerate(names):
         if not os.path.exists(os.path.join(SAMPLES, rel)):
